@@ -108,6 +108,11 @@ class WebSocketWriter:
             send_task.add_done_callback(self._background_tasks.discard)
             await asyncio.shield(send_task)
 
+        if opcode == WSMsgType.CLOSE:
+            # Nothing may follow the close frame, not even from another task
+            # while this one waits below for the transport to drain.
+            self._closing = True
+
         # It is safe to return control to the event loop when using compression
         # after this point as we have already sent or buffered all the data.
         # Once we have written output_size up to the limit, we call the
